@@ -72,7 +72,9 @@ def solve_lp(
         row.append(b[i] / scale)
         matrix.append(row)
 
-    obj = array("d", weights)
+    # The objective row is scaled like the constraint rows (the optimal point does not depend on it)
+    weight_scale = max((abs(w) for w in weights), default=0.0) or 1.0
+    obj = array("d", (w / weight_scale for w in weights))
     obj.extend([0.0] * (m + 1))
     matrix.append(obj)
 
